@@ -349,9 +349,13 @@ func (g *Gen) Value(t Ty) V {
 	case TIntList, TIntSet:
 		n := g.listLen()
 		l := make([]int64, n)
+		band := r.Intn(3) // long lists: any value, even values only, odd values only — so that two long lists are often disjoint
 		for i := range l {
 			if n > 8 {
 				l[i] = int64(r.Range(0, 300))
+				if band > 0 {
+					l[i] = l[i]/2*2 + int64(band-1)
+				}
 			} else {
 				l[i] = g.Int()
 			}
@@ -363,9 +367,14 @@ func (g *Gen) Value(t Ty) V {
 	case TStrList, TStrSet:
 		n := g.listLen()
 		l := make([]string, n)
+		band := r.Intn(3)
 		for i := range l {
 			if n > 8 {
-				l[i] = "s" + strconv.Itoa(r.Range(0, 300))
+				x := r.Range(0, 300)
+				if band > 0 {
+					x = x/2*2 + band - 1
+				}
+				l[i] = "s" + strconv.Itoa(x)
 			} else {
 				l[i] = g.Str()
 			}
